@@ -9,24 +9,24 @@ CHECKS = {
  'C02': ('E2 templates: every equality / redundancy / symmetry of the oracle closure is reported right after union returns', 'model_checking', '§4 C02'),
  'C03': ('E2 templates over the harness language Lm (variables, +, *, summation binder, let binder) with rule sets that are valid in the finite model GF(3): apply_rewrites from MIR (pattern_subst incl. the substitution form b[x := t] under both SubstMethods via trait-object dispatch, conditional rules with the condition closure from MIR, rules that move terms under binders or re-bind); after every call every class is dumped through enodes_applied and evaluated exhaustively over all environments: all e-nodes of a class denote the same function of the class slots, further (redundant) slots of a node do not influence its value, every inserted term still denotes what its class denotes', 'model_checking', '§4 C03'),
  'C04': ('E2 templates with rewrite steps: the real apply_rewrites (Rewrite::new, boxed searcher/applier, ematch_all, union_instantiations) from MIR on template final states; every oracle instance of a left side has its right side represented and equal afterwards', 'model_checking', '§4 C04'),
- 'C05': ('E2 templates with matching steps: every substitution returned by ematch_all binds all variables, its instance is found by lookup alone, matching leaves the e-graph unchanged; pattern slot names range over every slot issued before; multi-pattern matcher: every equation of a returned substitution holds', 'model_checking', '§4 C05'),
+ 'C05': ('E2 templates with matching steps: every substitution returned by ematch_all binds all variables, its instance is found by lookup alone, matching leaves the e-graph unchanged; pattern slot names range over every slot issued before; multi-pattern matcher: every equation of a returned substitution holds; multi-pattern matcher (multi_ematch) from MIR: every equation of a returned substitution holds', 'model_checking', '§4 C05'),
  'C14': ('E2 templates with the analyses MinSize and Depth of the harness crate (make/merge dispatched to their MIR): after every operation each class datum equals the oracle least value over all represented terms and the merge-fold of the crate own make over the class e-nodes; analyses with a modify hook outside', 'model_checking', '§4 C14'),
  'C15': ('E2: a call of apply_rewrites that returns false changed no observable and the oracle has no new instance; repeated calls stay false (Runner loop: Kani half, see DESIGN)', 'model_checking', '§4 C15'),
  'C06': ('E2 templates with extraction steps: Extractor::new / extract / get_best_cost from MIR (heap ordered by the crate own WithOrdRev::cmp) for AstSize and per-operator weighted costs; result is a member (lookup_rec_expr + eq), recomputed cost equals the reported cost, equals the oracle minimum over all represented terms, free slots are query arguments or fresh', 'model_checking', '§4 C06'),
- 'C08': ('E2 templates: no panic path feasible, EGraph::check() from MIR, enodes look up to their class, idempotent canonicalisation, after every operation', 'model_checking', '§4 C08'),
- 'C09': ('E2 templates with re-insertion steps: no allocation, equal invocation, lookup agrees with add', 'model_checking', '§4 C09'),
+ 'C08': ('E2 templates: no panic path feasible, EGraph::check() from MIR, enodes look up to their class, idempotent canonicalisation, after every operation; one-step obligations on find_applied_id from arbitrary union-find states (idempotence, key set, compressed entries); thorough: the same histories on the MIR of the checks-feature build', 'model_checking', '§4 C08'),
+ 'C09': ('E2 templates with re-insertion steps: no allocation, equal invocation, lookup agrees with add; the invocation as returned by add/lookup carries exactly the non-redundant free slots', 'model_checking', '§4 C09'),
  'C11': ('E2 templates: all paths (name orders) and hash iteration orders of one coincidence pattern yield identical observables', 'model_checking', '§4 C11'),
- 'C16': ('E2 unit: every variant of a derived language (plain slots, Bind, nested Bind, Bind before/after/between free children, payload) with all slot positions symbolic through the macro-generated code and the Language default methods; per coincidence pattern the shape must equal an independent canonical form, bijection / apply_slotmap / idempotence / slots / public-private partition / syntax round trip', 'model_checking', '§4 C16'),
+ 'C16': ('E2 unit: every variant of a derived language (plain slots, Bind, nested Bind, Bind before/after/between free children, payload) with all slot positions symbolic through the macro-generated code and the Language default methods; per coincidence pattern the shape must equal an independent canonical form, bijection / apply_slotmap / idempotence / slots / public-private partition / syntax round trip; refresh_private: same term up to bound names, free occurrences untouched, bound names new', 'model_checking', '§4 C16'),
  'C17': ('E2 unit: one inductive step of Slot::fresh/numeric/named/Display from MIR from an arbitrary slot-table state under the quantified invariant; dev and release (wrapping) variants', 'model_checking', '§4 C17'),
- 'C18': ('E2: Pattern::parse recursive descent + derived from_syntax from MIR on every token sequence up to the bound (symbolic kinds / identifiers / slots) and tokenize+parse on every string of symbolic Unicode scalar values up to the bound: no panic, Ok values well formed; round-trip clause outside', 'model_checking', '§4 C18'),
+ 'C18': ('E2: Pattern::parse recursive descent + derived from_syntax from MIR on every token sequence up to the bound (symbolic kinds / identifiers / slots) and tokenize+parse on every string of symbolic Unicode scalar values up to the bound: no panic, Ok values well formed; round-trip clause outside; RecExpr::parse from MIR on every accepted token sequence and short string; MultiPattern::parse on strings around valid and spliced multi-pattern texts (well-formedness); print/re-parse of every accepted class replayed natively', 'model_checking', '§4 C18'),
  'C19': ('E2 unit: every public SlotMap method from MIR on maps of concrete size with symbolic slots, reference finite map as z3 ite-terms, queries for a fresh symbolic key; maps of 11-40 entries for one symbolic operation', 'model_checking', '§4 C19'),
- 'C10': ('E2 unit: Group<SlotMap> from MIR with symbolic generator images, every permutation tuple a path admits compared with a brute-force closure (count, membership, enumeration, orbits, generators, add_set); e-graph level: symmetric-leaf templates', 'model_checking', '§4 C10'),
+ 'C10': ('E2 unit: Group<SlotMap> from MIR with symbolic generator images, every permutation tuple a path admits compared with a brute-force closure (count, membership, enumeration, orbits, generators, add_set); e-graph level: symmetric-leaf templates; thorough: 5 slots with one symbolic generator next to a concrete one', 'model_checking', '§4 C10'),
  'C13': ('E2 unit: one canonicalisation step (find_applied_id with recursive path compression) from arbitrary union-find states of five chain shapes, oracle = pointwise composition; history level: monotonicity of eq / slots / progress over the template histories', 'model_checking', '§4 C13'),
- 'C12': ('E2 templates and their reorderings (insertion order, union order, orientation) agree per coincidence pattern', 'model_checking', '§4 C12'),
+ 'C12': ('E2 templates and their reorderings (insertion order, union order, orientation) agree per coincidence pattern; reorder groups also with an analysis attached (insert-before-union vs insert-after-union)', 'model_checking', '§4 C12'),
 }
 NA = {
- 'C07': 'explanations feature not reachable by the encoder within budget; see DESIGN.md §4 C07',
- 'C20': 'thread/hash-seed reproducibility is invisible to a single-threaded symbolic encoding; see DESIGN.md §4 C20',
+ 'C07': 'explanations feature not reachable by the encoder within budget; see DESIGN.md §7',
+ 'C20': 'thread/hash-seed reproducibility is invisible to a single-threaded symbolic encoding; see DESIGN.md §7',
 }
 def main():
     all_ids = ['C%02d' % i for i in range(1, 21)]
